@@ -127,15 +127,27 @@ fn main() {
          every ordered pair (thorough: triple) of a sub-alphabet x every legal vector of a reduced profile (see coverage.profiles); \
          every ordered triple of 9 owner/TTL/class envelopes on plain A/MX/TXT records x every legal vector of the state-carrying \
          dimensions (owner, TTL, class form, $ORIGIN change, $TTL) in both tiers. \
+         Extension families: ordered pairs/triples of DISTINCT RDATA shapes of one type in one RRset; every shape in classes CH and \
+         HS; (thorough) every ordered 4-tuple of 6 envelopes on A/MX/TXT/AAAA x the state-carrying dimensions; names at the 63/255 \
+         octet limits relative to origins of 9/129/193/253 octets at every name position (beyond the limit: must be rejected); \
+         decimal TTL tokens (leading zeros, up to 2^31-1); LOADER differential: SOA+NS+records written to a scratch root and loaded \
+         by the real FileZoneHandler::try_from_config(root_dir, zone_path), loaded zone and AXFR answer of the real Catalog == records \
+         of the file; $INCLUDE in the valid direction: a 4-record file split at every pair of positions into parent + included file \
+         (nested once) x included-file origin (inherited / own $ORIGIN / $INCLUDE argument) x relative names on either side x final \
+         newlines x entry style x eol x path form, through the parser and through the file store. \
          Oracle: parse Ok, loaded (owner,TTL,class,type,RDATA) set == records printed, returned origin == argument. \
          MALFORMED: all strings of length <= 5 (thorough 6) over the 15 characters ' \\t\\n\\r();\"\\\\$@.a0*' (with and without an \
          origin argument), every 1-character deletion/insertion/substitution of the seed files (thorough: all 2-edits of the 8 \
-         shortest), growth families n=2^0..2^16, $INCLUDE recursion/chains. Oracle: returns Ok or Err, no panic, finishes. \
+         shortest; both tiers: all 2-edits of two chain files), growth families n=2^0..2^16 (thorough 2^20 characters / 2^18 records), \
+         $INCLUDE recursion/chains, TTL tokens of length <= 4 (thorough 5) over digits and unit letters plus 2^31/2^32 boundary values \
+         at three positions. Oracle: returns Ok or Err, no panic, finishes. \
          Non-trivial = distinct valid texts with at least one inheritance / relative name / continuation / escape, distinct \
          non-blank short strings that parse Ok, distinct rejected edits, growth points.",
     );
     ctx.assume("vref::masterfile prints RFC 1035 §5.1 / RFC 2308 §4 syntax only; an omitted class before any stated class denotes IN");
     ctx.assume("expected RDATA values are built with hickory's constructors (not its text parser) from the same typed values the printer receives");
+    ctx.assume("loader differential: zone class IN, records in zone, no CNAME beside other data (the store refuses those; the statement is silent)");
+    ctx.assume("$INCLUDE: RFC 1035 5.1 semantics (the included file is read in place with the origin in force or its own origin argument; the parent's origin is unchanged afterwards); owner/TTL/class are stated explicitly at the file boundaries");
     ctx.assume("RRsets that RFC 2181 §5.2 forbids (mixed TTL/class, two SOAs, two CNAMEs) are run but their record comparison is not judged");
     ctx.case_timeout_s.store(if thorough { 180 } else { 60 }, std::sync::atomic::Ordering::Relaxed);
 
